@@ -70,7 +70,7 @@ class CanStaticSchema: public ICanSchema {
         std::copy_n(encoded.value().begin(), encoded.value().size(), data.begin());
 
         std::array<char, 4> bus_name_arr{};
-        std::copy_n(bus_name.value().begin(), 4, bus_name_arr.begin());
+        std::copy_n(bus_name.value().begin(), std::min<std::size_t>(bus_name.value().size(), 4), bus_name_arr.begin());
         return frame_t{
             bus_name_arr,
             sid.value(),
@@ -81,7 +81,7 @@ class CanStaticSchema: public ICanSchema {
 
   private:
     std::optional<std::string> GetMsgName(std::uint16_t sid, const std::array<char,4> bus_name) {
-        std::string bus_name_str(bus_name.begin(), bus_name.end());
+        std::string bus_name_str(bus_name.data(), strnlen(bus_name.data(), bus_name.size()));
 
         {% for impl in fcp.get_matching_impls("can") %}
         if (sid == {{impl.fields.get('id')}} && bus_name_str == "{{impl.fields.get('bus', 'unkn')}}") {
